@@ -163,6 +163,7 @@ Definition pv_handle (k : knobs) (step : N) (keyed : bool) (stor : list (name * 
     else if negb wf then (0, keyed, false, RHttp500)
     else match store_get stor n with
          | None => (0, keyed, false, RHttp500)
+         | Some 0 => (0, keyed, false, RHttp500)      (* an entity without a long-term public key (key id 0) *)
          | Some _ =>
            match s with
            | SGenuine => (0, keyed, true, RTlv 4 None)
